@@ -973,6 +973,27 @@ class Interp:
             else:
                 m.fill(t[1], one, VAL, False, 'relocate_at(pending element -> %s)' % fmt(t[1]))
             return t
+        if sn == 'swap_ranges' and len(args) == 3:
+            self.no_probe(sn)
+            a, b, c = [self.ev(x, fr) for x in args]
+            if a[0] != 'ptr' or c[0] != 'ptr':
+                raise Unknown('swap_ranges over ranges the interpreter does not follow')
+            cnt = self.rng(a, b)
+            what = 'swap_ranges(%s, %s <-> %s)' % (fmt(a[1]), fmt(cnt), fmt(c[1]))
+            if m.count(cnt, what):
+                d = ladd(c[1], a[1], -1)
+                if m.compare(ladd(a[1], cnt), c[1]) > 0 and m.compare(ladd(c[1], cnt), a[1]) > 0:
+                    raise Violation('%s: the two ranges overlap' % what, self.m.cur)
+                p1 = m.pieces(a[1], ladd(a[1], cnt))
+                p2 = m.pieces(c[1], ladd(c[1], cnt))
+                for lo, hi, ct in p1 + p2:
+                    if not alive(ct):
+                        raise Violation('%s: slots [%s, %s) hold no object' % (what, fmt(lo), fmt(hi)), self.m.cur)
+                for lo, hi, ct in p1:
+                    m.write(ladd(lo, d), ladd(hi, d), shift_content(ct, d))
+                for lo, hi, ct in p2:
+                    m.write(ladd(lo, d, -1), ladd(hi, d, -1), shift_content(ct, lneg(d)))
+            return ('ptr', ladd(c[1], cnt))
         if sn in ('rotate', 'sort', 'swap', 'swap_ranges', 'iter_swap', 'reverse') and any(self.ev(a, fr)[0] in ('ptr', 'elem') for a in args):
             raise Unknown('%s over the storage' % sn)
         return NotImplemented
@@ -1244,6 +1265,19 @@ def spec_of(f, E):
     return None
 
 
+Y_ = {'Y': 1}          # base index of the second storage: both live in one index space, Y beyond every index of the first
+
+
+def helper_spec(f):
+    nm = f.get('name')
+    ps = f.get('params', [])
+    if nm == 'amc::vec::swap_deep' and len(ps) == 4:
+        return 'h_swap_deep', ['ptrX', 'cntX', 'ptrY', 'cntY']
+    if nm == 'amc::vec::move_n' and len(ps) == 4:
+        return 'h_move_n', ['ptrY', 'cntY', 'ptrX', 'cntX']
+    return None
+
+
 def S(**kw):
     return {k: v for k, v in kw.items() if v}
 
@@ -1289,10 +1323,19 @@ def expected(kind, m):
         return [(Z, N_, old()), (N_, ladd(N_, D_), new(N_))], ladd(N_, D_)
     if kind == 'acc':
         return [(Z, N_, old())], N_
+    CX, CY = {'CX': 1}, {'CY': 1}
+    if kind == 'h_swap_deep':
+        # the first storage receives the CY elements of the second, the second the CX elements of the first
+        return [(Z, CY, old(lneg(Y_))), (CY, Y_, RAW), (Y_, ladd(Y_, CX), old(Y_))], None
+    if kind == 'h_move_n':
+        # destination (first storage) holds the CY source elements, everything else - the surplus destination elements, the sources - is gone
+        return [(Z, CY, old(lneg(Y_))), (CY, Y_, RAW)], None
     raise Unknown('no specification for ' + kind)
 
 
 SPEC_TEXT = {
+    'h_swap_deep': 'the first range holds exactly the count2 elements of the second in order, the second exactly the count1 elements of the first, nothing else alive',
+    'h_move_n': 'the destination holds exactly the n source elements in order; surplus destination elements and all sources destroyed',
     'acc_end': 'begin() + size()', 'acc_rbegin': 'reverse iterator of end()', 'acc_rend': 'reverse iterator of begin()', 'acc_data': 'begin()',
     'acc_empty': 'size() == 0', 'acc_front': 'the element at index 0', 'acc_back': 'the element at index size()-1',
     'acc_index': 'the element at the index', 'acc_at': 'the element at the index, out_of_range exactly when index >= size()',
@@ -1326,6 +1369,16 @@ def same_content(m, a, b):
 
 def check_post(m, kind):
     exp, size = expected(kind, m)
+    if size is None:
+        last = exp[-1][1]
+        for lo, hi, c in exp:
+            for a, b, got in m.pieces(lo, hi):
+                if not same_content(m, got, c) and not (m.trivial and c == RAW):
+                    raise Violation('on return slots [%s, %s) hold %s; expected %s (Y = start of the second range)' % (fmt(a), fmt(b), cfmt(got), cfmt(c)), None)
+        for a, b, got in m.pieces(last, None):
+            if alive(got) and not m.trivial:
+                raise Violation('on return slots [%s, %s) still hold objects (%s): never destroyed' % (fmt(a), fmt(b), cfmt(got)), None)
+        return
     if not m.entails_eq(m.size, size):
         raise Violation('size() on return is %s, std::vector gives %s' % (fmt(m.size), fmt(size)), None)
     for lo, hi, c in exp:
@@ -1396,6 +1449,13 @@ def explore(prog, f, E, kind, roles, limit=4000):
             elif r == 'other':
                 fr.env[('p', i)] = ('other',)
                 m.cons.append(dict(D_))
+            elif r in ('ptrX', 'ptrY', 'cntX', 'cntY'):
+                CX, CY = {'CX': 1}, {'CY': 1}
+                fr.env[('p', i)] = {'ptrX': ('ptr', {}), 'ptrY': ('ptr', dict(Y_)), 'cntX': ('int', CX), 'cntY': ('int', CY)}[r]
+                if r == 'ptrX':
+                    m.cons = [CX, CY, ladd(ladd(Y_, ladd(CX, CY), -1), lconst(-1))]
+                    m.bounds, m.cont = [{}, dict(CX), dict(Y_), ladd(Y_, CY)], [old(), RAW, old(), RAW]
+                    m.size = {}
             elif r == 'index':
                 fr.env[('p', i)] = ('int', {'I': 1})
                 m.cons.append({'I': 1})
@@ -1448,9 +1508,12 @@ def seg_layout(progs):
             continue
         for f in prog.amc_functions():
             body = f.get('body')
-            if body is None or f.get('clsq') not in CLASSES or f.get('access') not in ('public', None):
+            if body is not None and helper_spec(f) is not None:
+                sp = helper_spec(f)
+            elif body is None or f.get('clsq') not in CLASSES or f.get('access') not in ('public', None):
                 continue
-            sp = spec_of(f, E)
+            else:
+                sp = spec_of(f, E)
             if sp is None:
                 continue
             kind, roles = sp
@@ -1468,7 +1531,7 @@ def seg_layout(progs):
                 seen.add(key)
                 msg, node, where, cons = bad
                 rr.add(Finding('SEG-LAYOUT', key, prog.site(f, node) if isinstance(node, dict) and node.get('l') and not where else f['loc'],
-                               '%s (%s)%s: %s - on the path where %s.  std::vector: %s' % (short(f['name']), kind, (' in ' + ' > '.join(where)) if where else '', msg,
-                                                                                    ', '.join(cons) or 'no condition', SPEC_TEXT[kind]),
+                               '%s (%s)%s: %s - on the path where %s.  %s: %s' % (short(f['name']), kind, (' in ' + ' > '.join(where)) if where else '', msg,
+                                                                              ', '.join(cons) or 'no condition', 'contract' if kind.startswith('h_') else 'std::vector', SPEC_TEXT[kind]),
                                where=f['pname'], unit=prog.uname))
     return rr
